@@ -539,4 +539,42 @@ theorem isoparse_eq (cfg : Option Nat) (s : Bytes) :
       · simp only [hs, (not_congr hsep).mpr hs, if_false]
         rfl
 
+theorem parseTzstrEntry_eq (s : Bytes) (z : Bool) : Gen.parseTzstrEntry s z = Iso.parseTzstr s z := by
+  unfold Gen.parseTzstrEntry; exact parseTzstr_eq s z
+
+theorem parseIsodateEntry_eq (s : Bytes) :
+    Gen.parseIsodateEntry s = (Iso.parseIsodateEntry s).map fun ymd => Cal.toOrdinal ymd.1 ymd.2.1 ymd.2.2 := by
+  unfold Gen.parseIsodateEntry Iso.parseIsodateEntry
+  rw [parseIsodate_eq]
+  cases hp : Iso.parseIsodate s with
+  | error e => rfl
+  | ok q =>
+    obtain ⟨⟨y, m, d⟩, rest⟩ := q
+    obtain ⟨df, x, es, _⟩ := parseIsodate_inv s _ _ hp
+    have hlen : rest.length ≤ s.length := by rw [es]; simp
+    simp only [Except.map, bind, ebind_ok, Except.bind, dateOut, BytesPy.len]
+    by_cases hr : rest = []
+    · subst hr
+      simp only [List.length_nil, Int.natCast_zero, Int.sub_zero, Int.lt_irrefl, if_false, ne_eq, not_true_eq_false,
+        BytesPy.dateStar, BytesPy.date]
+      split <;> rfl
+    · have : ((s.length : Int) - (rest.length : Int) < (s.length : Int)) := by
+        have : 0 < rest.length := List.length_pos_iff.mpr hr
+        omega
+      simp [this, hr]
+
+theorem parseIsotimeEntry_eq (s : Bytes) :
+    Gen.parseIsotimeEntry s = (Iso.parseIsotimeEntry s).map compsOf := by
+  unfold Gen.parseIsotimeEntry Iso.parseIsotimeEntry
+  rw [parseIsotime_eq]
+  cases hp : Iso.parseIsotime s with
+  | error e => rfl
+  | ok c =>
+    simp only [Except.map, bind, ebind_ok, Except.bind, lget_comps0, BytesPy.Comp.int.injEq]
+    obtain ⟨h, mi, sec, us, tz⟩ := c
+    by_cases h24 : h = 24
+    · subst h24
+      cases tz <;> simp [compsOf, BytesPy.lset, BytesPy.timeStar] <;> split <;> simp_all
+    · cases tz <;> simp [h24, compsOf, BytesPy.timeStar] <;> split <;> simp_all
+
 end IsoGen
